@@ -187,11 +187,25 @@ def _verify_path(e, forced=None):
     r = SI.var("r", -B, B)
     s = SI.var("s", -B, B)
     pt = e.Point(d=d)
+    sigobj = _Sig(r, s)
+    z0 = None
+    if forced == "history":
+        # an earlier verification of the same signature object under another digest on the same key object: whatever it
+        # answered, the answer for z below must still be the specification's
+        z0 = SI.var("z0", 0, (1 << 256) - 1)
+        try:
+            first = bool(pt.verify(z0, sigobj))
+        except Exception:
+            first = False
 
     def wit(env):
-        return {"d": env["d"], "z": env["z"], "r": env["r"], "s": env["s"]}
+        w = {"d": env["d"], "z": env["z"], "r": env["r"], "s": env["s"]}
+        if z0 is not None:
+            w["z0"] = env["z0"]
+            w["first"] = first
+        return w
     try:
-        got = pt.verify(z, _Sig(r, s))
+        got = pt.verify(z, sigobj)
         got = bool(got)
     except Exception:
         got = False
@@ -208,8 +222,8 @@ def _verify_path(e, forced=None):
         else:
             xn, _ = e.grp.coords(tot)
             want = bool(core.wrap(xn) == r)
-    check(got == want, f"verify answers {got} where the specification answers {want}", witness=wit)
-    return (got, want)
+    check(got == want, f"verify answers {got} where the specification answers {want}" + (f" (after an earlier verify under another digest answered {first})" if z0 is not None else ""), witness=wit)
+    return (got, want) if z0 is None else (first, got, want)
 
 
 def ob_verify():
@@ -217,6 +231,14 @@ def ob_verify():
     if "(True, True)" not in r["classes"] or "(False, False)" not in r["classes"]:
         r["inconclusive"].append("reachability twin: accept/accept or reject/reject class missing")
     r["sample"] = {"key": "d*G, d symbolic", "z": "symbolic", "r,s": "symbolic in [-2^257, 2^257]"}
+    return r
+
+
+def ob_verify_history():
+    r = sym_run(lambda: _verify_path(forced="history"), mode="int", timeout_ms=60000)
+    if "(True, False, False)" not in r["classes"] or "(False, True, True)" not in r["classes"]:
+        r["inconclusive"].append("reachability twin: accepted-then-rejected or rejected-then-accepted history missing")
+    r["sample"] = {"history": "verify(z0, sig) then verify(z, sig) on the same point and signature objects", "d,z0,z,r,s": "symbolic"}
     return r
 
 
@@ -232,12 +254,47 @@ def ref_verify(pub, z, r, s):
     return tot.x.num % N == r
 
 
+def _replay_verify_history(pk, w):
+    """the history class on the real curve: when the model's first call accepted, take a genuine signature for (d, z0), verify
+    it on one point object and ask the same object about the model's second digest (and a few digests near z0); when the
+    first call rejected, the genuine signature is for z and is first offered under z0"""
+    from buidl import pecc
+    d, z, z0 = w["d"], w["z"], w["z0"]
+    hist = []
+    if w.get("first"):
+        sig = pk.sign(z0 % (1 << 256))
+        seconds = [z, z0 ^ 1, (z0 + N) % (1 << 256), 0, N - 1]
+        firsts = [z0] * len(seconds)
+    else:
+        sig = pk.sign(z % (1 << 256))
+        seconds = [z, z]
+        firsts = [z0, z ^ 1]
+    for za, zb in zip(firsts, seconds):
+        pt = pecc.S256Point.parse(pk.point.sec())
+        try:
+            a = bool(pt.verify(za, sig))
+        except Exception:
+            a = False
+        try:
+            got = bool(pt.verify(zb, sig))
+        except Exception:
+            got = False
+        want = ref_verify(pt, zb, sig.r, sig.s)
+        hist.append((a, got, want))
+        if got != want:
+            return {"violated": True, "observed": f"on one point object verify(z0={za:#x}, sig) = {a}, then verify(z={zb:#x}, same sig) = {got}; "
+                                                  f"specification = {want} (r={sig.r:#x}, s={sig.s:#x})"}
+    return {"violated": False, "observed": f"histories agree with the specification: {hist}"}
+
+
 def replay_verify(w):
     """the model's X values are uninterpreted, so rebuild the witness class on the real curve: take a genuine signature for
     (d, z) and move r, s out of range by the same multiples of N as the model"""
     from buidl import pecc
     d, z, r, s = w["d"], w["z"], w["r"], w["s"]
     pk = pecc.PrivateKey(d)
+    if "z0" in w:
+        return _replay_verify_history(pk, w)
     sig = pk.sign(z % (1 << 256))
     cands = []
     kr, ks = (r - (r % N)) // N, (s - (s % N)) // N
@@ -464,7 +521,8 @@ def obligations(tier):
     obs = [Ob("O0-constants", ob_constants),
            Ob("O1-sign-lowS-complete", ob_sign, replay="sign"),
            Ob("O2-rfc6979", ob_rfc6979, {"draws": 3 if q else 5}, replay="rfc6979"),
-           Ob("O3-verify-spec", ob_verify, replay="verify")]
+           Ob("O3-verify-spec", ob_verify, replay="verify"),
+           Ob("O3-verify-history", ob_verify_history, replay="verify")]
     sizes = [32, 31, 30, 29] if q else list(range(32, 0, -1))
     for i in range(0, len(sizes), 4):
         obs.append(Ob("O4-der", ob_der, {"sizes": tuple(sizes[i:i + 4])}, replay="der"))
